@@ -118,7 +118,9 @@ class VDatetime(_dt.datetime):
         r = cls(base.year, base.month, base.day, base.hour, base.minute,
                 base.second, base.microsecond, tzinfo=base.tzinfo)
         if tz is None:
-            return r.replace(tzinfo=None)
+            # like the real datetime.now(): naive LOCAL time (process time zone, TZ / time.tzset())
+            loc = base.astimezone()
+            return cls(loc.year, loc.month, loc.day, loc.hour, loc.minute, loc.second, loc.microsecond)
         return r.astimezone(tz)
 
     @classmethod
